@@ -17,7 +17,7 @@ from sim.core import H, Violation, digest, canon
 ID = "C18"
 LEVEL = "exploration"
 BATCH = 4
-QUICK_WORLDS = 288
+QUICK_WORLDS = 432
 THOROUGH_BUDGET_S = 900
 RUN_TIMEOUT = 240
 NEEDS_REFSERVER = True
